@@ -327,3 +327,16 @@ Proof.
   intros v bv Hv. apply (holds_def _ _ _ _ _ (lookup_def_same _ _ _)) in Hv.
   rewrite tsum_in_single, tval_name1_full in Hv. exact Hv.
 Qed.
+
+(** With the single-issuer check (proposed fix D22) the market always clears. *)
+Lemma money_generate_checked_ok c issuer mk z z' :
+  money_generate_checked c issuer mk z = Ok z' ->
+  money_generate c issuer mk z = Ok z' /\ exists i, List.In i z /\ money_issuer issuer i = true.
+Proof.
+  unfold money_generate_checked. destruct (split_sid mk z) as [[[pre m] post]|]; [|discriminate].
+  destruct (hasF m); [discriminate|].
+  destruct (Nat.eqb (List.length (filter (money_issuer issuer) z)) 1) eqn:E; [|discriminate].
+  intros H. split; [exact H|]. apply PeanoNat.Nat.eqb_eq in E.
+  destruct (filter (money_issuer issuer) z) as [|i l] eqn:F; [discriminate|].
+  exists i. apply filter_In. rewrite F. now left.
+Qed.
